@@ -341,7 +341,11 @@ pub fn check(prop: Arc<dyn Prop>, opts: &CheckOpts) -> i32 {
     let viols = a.violations.clone();
     for (case, v) in viols.iter() {
         if v.class.starts_with("harness:") {
-            println!("HARNESS-ERROR property={id} {} {}", v.class, v.detail);
+            // keep the case so the harness error can be replayed and looked at
+            let path = format!("{}/replays/{id}-harness-{}.json", opts.verif_dir, case["seed"].as_u64().unwrap_or(0));
+            let _ = std::fs::create_dir_all(format!("{}/replays", opts.verif_dir));
+            let _ = std::fs::write(&path, serde_json::to_string_pretty(&serde_json::json!({"case": case, "violation": {"class": v.class, "detail": v.detail}})).unwrap_or_default());
+            println!("HARNESS-ERROR property={id} {} {} (case kept at {path})", v.class, v.detail);
             exit = 2;
             continue;
         }
